@@ -11,7 +11,7 @@
 From Coq Require Import List ZArith NArith Bool.
 From BBS Require Import Common.Sx Buffer.Source Buffer.Validate Buffer.Convert
   Buffer.StreamProofs Buffer.ValidateProofs Buffer.ConvertProofs
-  Buffer.ValidateReaderProofs Buffer.ReaderBufferProofs Buffer.ConvertProofs2 Run.R09.
+  Buffer.ValidateReaderProofs Buffer.ReaderBufferProofs Buffer.ConvertProofs2 Buffer.OtherwiseProofs Run.R09.
 Import ListNotations.
 Open Scope N_scope.
 
@@ -133,6 +133,32 @@ Theorem reader_buffer_complete_implies_valid : forall H cfg fuel evs attach m o,
   valid_script H cfg evs /\ o_data o = expected_slice m (fst (content evs)).
 Proof. exact ReaderBufferProofs.reader_complete_implies_valid. Qed.
 Print Assumptions reader_buffer_complete_implies_valid.
+
+(** The "otherwise" half at constructor level for IntoWriter, the method through
+    which partial data reaches the consumer: invalid content => an error, fewer
+    than [size] bytes written, sound callback verdicts; for chunk-reader buffers
+    also the code: the Source's when the source ends cleanly, else the source's
+    own I/O error or (content already too long) the Source's.
+    Full statement: the same for every method; proved for IntoWriter, the other
+    methods rest on the validator-level theorems [withhold], [callback_sound],
+    [failure_origin], [mismatch_code] above. *)
+Theorem chunk_reader_buffer_otherwise_partial : forall H cfg fuel evs o,
+  cas_chunk_reader H cfg fuel evs MIntoWriter = o -> o_err o <> EFuel ->
+  ((In true (o_cbs o) -> valid_script H cfg evs) /\ (In false (o_cbs o) -> ~ valid_script H cfg evs)) /\
+  (~ valid_script H cfg evs ->
+     o_err o <> ENone /\ (lenN (o_data o) < g_size cfg \/ o_data o = []) /\
+     (snd (content evs) = EEof -> o_err o = ECode (g_code cfg)) /\
+     (forall c, snd (content evs) = ECode c -> o_err o = ECode c \/ o_err o = ECode (g_code cfg))).
+Proof. exact chunk_into_writer_otherwise. Qed.
+Print Assumptions chunk_reader_buffer_otherwise_partial.
+
+Theorem reader_buffer_otherwise_partial : forall H cfg fuel evs attach o,
+  cas_reader H cfg fuel evs attach MIntoWriter = o -> o_err o <> EFuel ->
+  ((In true (o_cbs o) -> valid_script H cfg evs) /\ (In false (o_cbs o) -> ~ valid_script H cfg evs)) /\
+  (~ valid_script H cfg evs ->
+     o_err o <> ENone /\ (lenN (o_data o) < g_size cfg \/ o_data o = [])).
+Proof. exact reader_into_writer_otherwise. Qed.
+Print Assumptions reader_buffer_otherwise_partial.
 
 (** NewCASBufferFromByteSlice: every method. *)
 Theorem byte_slice_buffer_complete_implies_valid : forall H cfg fuel data m,
